@@ -13,7 +13,9 @@ RULE = (
     "case = {Spring, KelvinVoigtElement (force and compliance form), MaxwellElement} x {TwoPointInteraction between "
     "any two of fixed Frame / PointMass / RigidBody with body-fixed offsets, Revolute between Frame/RigidBody and "
     "RigidBody with random axis, placement and angle0 in (-2pi,2pi)} x initial configuration, reference length "
-    "omitted; initial velocities zero. The enumerated grid law x form x interaction is also run. Non-trivial: "
+    "omitted; initial velocities zero. In a quarter of the cases the interaction is assembled first, the system gets a "
+    "new initial configuration through System.set_new_initial_state (body 2 rotated about the joint axis / moved "
+    "rigidly) and only then the force law is attached and the system re-assembled. The enumerated grid law x form x interaction is also run. Non-trivial: "
     "revolute subsystem or non-zero offsets."
 )
 ASSUMPTIONS = [
@@ -61,6 +63,11 @@ def _case(draw):
                          "angle0": draw(st.sampled_from([0.0, None, None])) or draw(gen.f(-6.2, 6.2)),
                          "r_OJ0": [draw(gen.f(-1, 1)) for _ in range(3)] if draw(st.booleans()) else None,
                          "psi_J": draw(gen.rotvec(min_exp=-2, near_max=False)) if draw(st.booleans()) else None}
+    if draw(st.integers(0, 3)) == 0:
+        # history: the interaction is assembled first, the system is given a new initial configuration (body 2 rotated
+        # about the joint axis / moved rigidly), and only then the force law is attached and the system re-assembled
+        spec["restart"] = {"angle": draw(gen.f(-3.0, 3.0)), "psi": draw(gen.rotvec(min_exp=-2, near_max=False)),
+                           "b": [draw(gen.f(-1, 1)) for _ in range(3)]}
     return spec
 
 
@@ -83,11 +90,50 @@ def static_cases(tier):
     return out
 
 
+def _build_with_restart(spec):
+    """interaction assembled -> new initial configuration via System.set_new_initial_state -> force law attached"""
+    from cardillo.solver import SolverOptions
+    from harness.runner import quiet
+
+    bare = {k: v for k, v in spec.items() if k not in ("element", "restart")}
+    bare["load"] = {"type": "Force", "f0": [0.0, 0.0, 0.0]}  # build_case needs one element; a zero force is inert
+    system, _, inter = c08.build_case(bare)
+    rs = spec["restart"]
+    body2 = inter.subsystem2
+    q0 = system.q0.copy()
+    if len(body2.q0):
+        ql = q0[body2.qDOF]
+        if spec["inter"] == "revolute":
+            psi = np.asarray(inter.A_IJ0)[:, spec["joint"]["axis"]] * rs["angle"]
+            R = gen._exp(psi)
+            b = np.asarray(inter.r_OJ0) - R @ np.asarray(inter.r_OJ0)
+        else:
+            psi = np.array(rs["psi"], dtype=float)
+            R, b = gen._exp(psi), np.array(rs["b"], dtype=float)
+        new = ql.copy()
+        new[:3] = R @ ql[:3] + b
+        if len(ql) == 7:
+            a = float(np.linalg.norm(psi))
+            qR = np.concatenate([[np.cos(a / 2)], np.sin(a / 2) * psi / a]) if a > 0 else np.array([1.0, 0, 0, 0])
+            p = ql[3:]
+            new[3:] = np.array([qR[0] * p[0] - qR[1:] @ p[1:], *(qR[0] * p[1:] + p[0] * qR[1:] + np.cross(qR[1:], p[1:]))])
+        q0[body2.qDOF] = new
+    with quiet():
+        system.set_new_initial_state(q0, system.u0.copy(), options=SolverOptions(compute_consistent_initial_conditions=False))
+        el = sysbuild.make_force_law(dict(spec["element"]), inter)
+        system.add(el)
+    sysbuild.assemble(system)
+    return system, el, inter
+
+
 def check(spec):
     res = Result()
     site = c08.element_site(spec)
     feats = {"element": site}
-    system, el, inter = c08.build_case(spec)  # an exception from repository code here is a failure ('raises')
+    if "restart" in spec:
+        system, el, inter = _build_with_restart(spec)
+    else:
+        system, el, inter = c08.build_case(spec)  # an exception from repository code here is a failure ('raises')
     t0, q0, u0 = system.t0, system.q0, system.u0
     k = spec["element"]["k"]
     l0 = abs(float(inter.l(t0, q0[inter.qDOF])))
@@ -112,7 +158,7 @@ def check(spec):
         res.fail("zero_energy", site, abs(E), feats)
     offs = spec["inter"] == "tpi" and (np.any(np.array(spec["tpi"]["B1"])) or np.any(np.array(spec["tpi"]["B2"])))
     res.nontrivial = spec["inter"] == "revolute" or bool(offs)
-    res.label(site)
+    res.label(site, "history:law_attached_after_new_initial_state" if "restart" in spec else "history:single_assembly")
     if spec["inter"] == "revolute":
         res.label("angle0!=0" if spec["joint"]["angle0"] != 0 else "angle0=0")
     return res
